@@ -3,6 +3,7 @@
 Equality itself is judged by TLC (spec/DiffTrace.tla) on pair lines {"id", "a", "b"}."""
 import json
 import multiprocessing
+from . import core as _core
 import os
 import re
 
@@ -118,8 +119,7 @@ def diff_runs(ctx, jobs, svcs, timeout_on=True, nproc=12, tag="d", **opts):
                      os.path.join(ctx.scratch, "%s-dtrace%d.ndjson" % (tag, n)), opts))
     if nproc == 1:
         return [_diff_worker(args[0])]
-    with multiprocessing.Pool(nproc) as pool:
-        return pool.map(_diff_worker, args)
+    return _core.pool_map(_diff_worker, args, nproc)
 
 
 def validate_diffs(ctx, results):
